@@ -61,8 +61,14 @@ fn verdicts(
 /// same clock and oracle prices, which is what order execution does first) the position must have been
 /// liquidatable under the *liquidation* thresholds at the prices the program recorded in the trade event.
 fn liquidation_was_due(sim: &Sim, pre: &hostsvm::Svm, position: &Pubkey, shard: u64, step: u64, m: &mut Monitor) {
-    let prices = ev_prices(&sim.w);
-    let mut w2 = sim.w.clone();
+    liquidation_was_due_in(&sim.w, "", sim, pre, position, shard, step, m)
+}
+
+/// `after`: the world right after the successful liquidation (its event buffer holds the execution prices).
+#[allow(clippy::too_many_arguments)]
+fn liquidation_was_due_in(after: &World, tag: &str, sim: &Sim, pre: &hostsvm::Svm, position: &Pubkey, shard: u64, step: u64, m: &mut Monitor) {
+    let prices = ev_prices(after);
+    let mut w2 = after.clone();
     w2.svm = pre.clone();
     let Some(p) = load::<Position>(&w2.svm, position) else { return };
     let Some(mi) = w2.markets.iter().position(|mk| mk.market_token == p.market_token) else { return };
@@ -75,11 +81,11 @@ fn liquidation_was_due(sim: &Sim, pre: &hostsvm::Svm, position: &Pubkey, shard: 
     match verdicts(&w2, &w2.svm, position, &prices) {
         None => m.count("liquidation_pre_state_verdict_not_computable"),
         Some((Some(reason), _)) => {
-            m.count(&format!("liquidated_position_was_liquidatable:{reason:?}"));
+            m.count(&format!("{tag}liquidated_position_was_liquidatable:{reason:?}"));
         }
         Some((None, _)) => m.violation(
             "C09:liquidate:succeeded_for_position_not_liquidatable_under_liquidation_thresholds",
-            json!({"shard": shard, "step": step, "position": position.to_string(), "history": sim.history}),
+            json!({"shard": shard, "step": step, "probe": !tag.is_empty(), "position": position.to_string(), "history": sim.history}),
         ),
     }
 }
@@ -91,6 +97,25 @@ fn sim_part(args: &Args, shard: u64, m: &mut Monitor) {
     let mut sim = Sim::new(args.seed, shard);
     for step in 0..steps {
         let rec = sim.step();
+        // probes: every few steps a liquidation of every open position is tried on a clone of the world (the Sim's own
+        // random `liquidate` attempts rarely meet a position inside the band between the validation and the
+        // liquidation threshold); a probe that succeeds is judged like a real liquidation
+        if step % 3 == 2 {
+            let keeper = sim.w.keeper;
+            for (pos, _) in sim.open_positions() {
+                let mut w2 = sim.w.clone();
+                let Some((ixs, _)) = w2.position_cut_ixs(keeper, pos, None) else { continue };
+                let pre = w2.svm.clone();
+                m.eval();
+                if w2.svm.process(&ixs, &[keeper]).is_ok() {
+                    m.count("probe_liquidation_succeeded");
+                    m.nontrivial(format!("probe:{pos}:{step}").as_bytes());
+                    liquidation_was_due_in(&w2, "probe_", &sim, &pre, &pos, shard, step, m);
+                } else {
+                    m.count("probe_liquidation_rejected");
+                }
+            }
+        }
         match &rec.op {
             Op::Liquidate { position } => {
                 m.eval();
